@@ -219,6 +219,15 @@ func init() {
 	reg(func(p *Path, fr *frame, fn *ssa.Function, a []Value) Value {
 		return p.ufBytes(fr, strArg(a[0]), intArg(a[1]), a[2].(Slice).A)
 	}, zz+"UF")
+	reg(func(p *Path, fr *frame, fn *ssa.Function, a []Value) Value {
+		m, _ := p.state["ufinj"].(map[string]bool)
+		if m == nil {
+			m = map[string]bool{}
+			p.state["ufinj"] = m
+		}
+		m[strArg(a[0])] = true
+		return nil
+	}, zz+"AssumeCollisionFree")
 	// FmtIs(s, format-description) lets oracles look at opaque formatted strings.
 	reg(func(p *Path, fr *frame, fn *ssa.Function, a []Value) Value {
 		if f, ok := a[0].(*FmtStr); ok {
@@ -571,7 +580,22 @@ func (p *Path) ufBytes(fr *frame, name string, n int, args []Value) Value {
 			same = sym.And(same, p.ufArgEq(fr, prev.args[i], flat[i]))
 		}
 		if same.IsFalse() {
+			if p.ufInjective(name) {
+				// collision freedom: different inputs (e.g. of different length) give different outputs
+				eq := sym.True
+				for i := range out {
+					eq = sym.And(eq, sym.Eq(out[i], prev.out[i]))
+				}
+				p.addPC(sym.Not(eq))
+			}
 			continue
+		}
+		if same.IsTrue() {
+			vs := make([]Value, n)
+			for i := range prev.out {
+				vs[i] = prev.out[i]
+			}
+			return Slice{A: vs}
 		}
 		eq := sym.True
 		for i := range out {
